@@ -230,8 +230,11 @@ class Session:
 
             if getattr(self, "other", None) is None:
                 rs2 = Stream(op["seed"], "card2")
-                # same decay topology (same number of data tensors), other masses / spins / couplings
-                card2 = cards.make_card(rs2, "S3", n_res=min(3, max(2, len(self.resnames))))
+                # the SAME card (same particle names and quantum numbers), other couplings and other events.
+                # (A card that re-uses the particle names with other spins would run into the name-keyed
+                # lru_cache of Decay._get_cg_matrix - a defect of the pinned tree outside this property, see
+                # DESIGN.md 10.4 - and even plain eager evaluation of the second model would be wrong.)
+                card2 = copy.deepcopy(self.spec["card"])
                 extra = {"bg_weight": 0.3} if self.spec.get("bg") else {}
                 ref2 = cards.build(card2, dict(extra))
                 sut2 = cards.build(card2, dict(STRATEGIES[self.spec["strategy"]], **extra))
